@@ -889,6 +889,15 @@ class IRGenerator:
                     if not field._ast_node.has_default:
                         continue
 
+                    if unwrap_aliases(field.data_type)[1] and \
+                            is_nullable_type(unwrap_aliases(field.data_type)[0]):
+                        # The literal `T? = x` is refused when the field is
+                        # created; an alias of a nullable type is nullable too.
+                        raise InvalidSpec(
+                            'Field %s cannot be a nullable type and have a '
+                            'default specified.' % quote(field._ast_node.name),
+                            field._ast_node.lineno, field._ast_node.path)
+
                     if isinstance(field._ast_node.default, AstTagRef):
                         default_value = TagRef(
                             field.data_type, field._ast_node.default.tag)
